@@ -17,6 +17,7 @@ import (
 	"regexp"
 	"strings"
 	"time"
+	"unicode/utf8"
 )
 
 // ErrInspectionRunDirIsSymlink gets thrown if the runDir is a symlink
@@ -691,10 +692,7 @@ func LoadLinksForLayout(layout Layout, linkDir string) (map[string]map[string]Me
 		linksPerStep := make(map[string]Metadata)
 		// Since we can verify against certificates belonging to a CA, we need to
 		// load any possible links
-		linkFiles, err := filepath.Glob(path.Join(linkDir, fmt.Sprintf(LinkGlobFormat, step.Name)))
-		if err != nil {
-			return nil, err
-		}
+		linkFiles := findLinkFiles(linkDir, step.Name)
 
 		for _, linkPath := range linkFiles {
 			// Only regular files can be link metadata. Anything else that
@@ -729,6 +727,46 @@ func LoadLinksForLayout(layout Layout, linkDir string) (map[string]map[string]Me
 	}
 
 	return stepsMetadata, nil
+}
+
+/*
+findLinkFiles returns, in lexical order, the paths of the files in the passed
+link directory that are named like a link of the passed step, i.e.
+<step name>.<8 characters>.link (see LinkGlobFormat).  Step name and link
+directory are taken literally: characters that have a special meaning in glob
+patterns do not get one here.
+*/
+func findLinkFiles(linkDir string, stepName string) []string {
+	// The last path element of the name pattern always ends in the 8
+	// character wildcards and the link suffix, what stands before them is
+	// the literal start of the file names we are looking for.
+	const wildcards = "????????"
+	const suffix = ".link"
+	dir, pattern := path.Split(path.Join(linkDir, fmt.Sprintf(LinkGlobFormat, stepName)))
+	prefix := strings.TrimSuffix(pattern, wildcards+suffix)
+
+	readDir := dir
+	if readDir == "" {
+		readDir = "."
+	}
+	entries, err := os.ReadDir(readDir)
+	if err != nil {
+		return nil
+	}
+	var linkFiles []string
+	for _, entry := range entries {
+		name := entry.Name()
+		if len(name) < len(prefix)+len(suffix) ||
+			!strings.HasPrefix(name, prefix) || !strings.HasSuffix(name, suffix) {
+			continue
+		}
+		shortKeyID := name[len(prefix) : len(name)-len(suffix)]
+		if utf8.RuneCountInString(shortKeyID) != len(wildcards) {
+			continue
+		}
+		linkFiles = append(linkFiles, dir+name)
+	}
+	return linkFiles
 }
 
 /*
